@@ -96,6 +96,7 @@ type round struct {
 	keyRef   map[string]string // expected answers on that list
 	ksShared oidc.KeySet       // ONE remote key set over the static JWKS of extra.go
 	ksToks   []ksToken
+	opv      *opVerifiers // ONE set of provider-side verifier objects used for every client
 }
 
 func (rd *round) caseIdx() int64 { return int64(roundBase + rd.cfg.Round) }
@@ -260,6 +261,8 @@ func newRound(run *ev.Run, r int) *round {
 	j, rd.ksToks = keysetFixture()
 	mux.Handle(jwksHost, j)
 	rd.ksShared = rp.NewRemoteKeySet(rd.hcShared, "https://"+jwksHost+"/keys")
+	rd.opv = newOPVerifiers(b.w.Storage, opIssuer)
+	rd.opv.watch(&rd.w, "shared-op-verifiers")
 	return rd
 }
 
@@ -282,7 +285,7 @@ var srvKinds = []string{"s.discovery", "s.keys", "s.code", "s.code", "s.implicit
 var newKinds = []string{"x.new_provider_custom", "x.new_provider_default", "x.new_rp", "x.new_rs_te"}
 
 var cliKinds = []string{"c.code", "c.code", "c.browser", "c.userinfo", "c.userinfo", "c.refresh", "c.endsession", "c.endsession", "c.revoke", "c.revoke", "c.clientcreds",
-	"c.device", "c.introspect", "c.introspect", "c.exchange", "c.ts", "c.verify", "c.discover", "c.discover_front", "c.browser", "c.findkey", "c.verify_ks", "c.callback_error", "c.callback_error"}
+	"c.device", "c.introspect", "c.introspect", "c.exchange", "c.ts", "c.verify", "c.discover", "c.discover_front", "c.browser", "c.findkey", "c.verify_ks", "c.callback_error", "c.callback_error", "c.op_verifier", "c.op_verifier"}
 
 func concMandatory() []string {
 	var out []string
@@ -843,6 +846,17 @@ func (w *worker) cliOp(kind string, set *sharedSet) (class string) {
 				err = fmt.Errorf("crosstalk: the error page of callback %s shows data of another callback (%s)", mk, fm[0])
 			} else if rec.Code < 400 || !strings.Contains(body, mk) {
 				err = fmt.Errorf("harness: error callback answered %d %q", rec.Code, clip(body, 200))
+			}
+		case "c.op_verifier":
+			switch w.r.IntN(4) {
+			case 0:
+				err = rd.opv.assertionOf("c20pk", opIssuer)
+			case 1:
+				err = rd.opv.assertionOf("jwt", opIssuer)
+			case 2:
+				err = rd.opv.forgedAssertion("c20pk", "jwt", opIssuer)
+			default:
+				err = rd.opv.forgedAssertion("jwt", "c20pk", opIssuer)
 			}
 		case "c.findkey":
 			kcs := keyCases()
